@@ -1,0 +1,125 @@
+//go:build verif
+
+// Contracts for the verif build tag: comment-only, read by /verif/engine (govc).
+package wire
+
+//@ # ---- C06: reply header shaping on raw wire bytes (RFC 1035 section 4.1.1 layout)
+//@ spec be16(b []byte, o int) uint16 := uint16(b[o])<<8 | uint16(b[o+1])
+//@
+//@ func (Header).Rcode
+//@   arith bv
+//@   modifies nothing
+//@   ensures result == int(h.Flags & 15)
+//@ func (Header).AD
+//@   arith bv
+//@   modifies nothing
+//@   ensures result == (h.Flags & 32 != 0)
+//@ func (Header).QR
+//@   arith bv
+//@   modifies nothing
+//@   ensures result == (h.Flags & 32768 != 0)
+//@ func (Header).Opcode
+//@   arith bv
+//@   modifies nothing
+//@   ensures result == int((h.Flags >> 11) & 15)
+//@
+//@ func ParseHeader
+//@   arith bv
+//@   modifies nothing
+//@   ensures result1 == (len(body) >= 12)
+//@   ensures result1 ==> result0.ID == be16(body, 0) && result0.Flags == be16(body, 2) && result0.QDCount == be16(body, 4) && result0.ANCount == be16(body, 6) && result0.NSCount == be16(body, 8) && result0.ARCount == be16(body, 10)
+//@
+//@ func SetARCount
+//@   arith bv
+//@   modifies body[10], body[11]
+//@   ensures len(body) >= 12 ==> be16(body, 10) == n
+//@
+//@ func ClearAD
+//@   arith bv
+//@   modifies body[3]
+//@   ensures len(body) >= 4 ==> body[3] == old(body[3]) & 223
+//@
+//@ func SetRcode
+//@   arith bv
+//@   modifies body[3]
+//@   ensures len(body) >= 12 ==> body[3] & 15 == uint8(rcode) & 15 && body[3] & 240 == old(body[3]) & 240
+//@ func SetRA
+//@   arith bv
+//@   modifies body[3]
+//@   ensures len(body) >= 12 ==> body[3] == old(body[3]) | 128
+//@ func SetAD
+//@   arith bv
+//@   modifies body[3]
+//@   ensures len(body) >= 12 ==> body[3] == old(body[3]) | 32
+//@
+//@ # ApplyReply: ID, QR, opcode, RD, CD from the request; AA cleared; TC, RA, Z, AD and RCODE untouched; nothing
+//@ # beyond the first four octets written; a short body is left alone.
+//@ func ApplyReply
+//@   arith bv
+//@   modifies body[0], body[1], body[2], body[3]
+//@   ensures len(body) >= 12 ==> be16(body, 0) == id
+//@   ensures len(body) >= 12 ==> be16(body, 2) & 32768 == 32768 && be16(body, 2) & 1024 == 0
+//@   ensures len(body) >= 12 ==> (be16(body, 2) >> 11) & 15 == uint16(opcode) & 15
+//@   ensures len(body) >= 12 ==> (be16(body, 2) & 256 != 0) == rd && (be16(body, 2) & 16 != 0) == cd
+//@   ensures len(body) >= 12 ==> be16(body, 2) & 751 == old(be16(body, 2)) & 751
+//@   ensures len(body) < 12 && len(body) >= 4 ==> body[0] == old(body[0]) && body[1] == old(body[1]) && body[2] == old(body[2]) && body[3] == old(body[3])
+//@
+//@ func SetTTL
+//@   arith bv
+//@   requires ttlOff <= 1000000000
+//@   modifies body[ttlOff], body[ttlOff+1], body[ttlOff+2], body[ttlOff+3]
+//@   ensures ttlOff >= 0 && ttlOff + 4 <= len(body) ==> uint32(body[ttlOff])<<24 | uint32(body[ttlOff+1])<<16 | uint32(body[ttlOff+2])<<8 | uint32(body[ttlOff+3]) == ttl
+//@
+//@ # ---- wire walkers: never read out of range for ANY byte content; return -1/false or offsets inside the buffer
+//@ func SkipName
+//@   arith bv
+//@   requires 0 <= off
+//@   modifies nothing
+//@   ensures result == -1 || (off < result && result <= len(body))
+//@   loop 1 invariant entry_off <= off && 0 <= off
+//@   loop 1 decreases len(body) - off
+//@
+//@ func ParseQuestion
+//@   arith bv
+//@   requires 0 <= off
+//@   modifies nothing
+//@   ensures result1 ==> result0.NameOff == off && result0.NameLen > 0 && result0.End == off + result0.NameLen + 4 && result0.End <= len(body)
+//@   ensures result1 ==> result0.Qtype == be16(body, off + result0.NameLen) && result0.Qclass == be16(body, off + result0.NameLen + 2)
+//@
+//@ func ParseRR
+//@   arith bv
+//@   requires 0 <= off
+//@   modifies nothing
+//@   ensures result1 ==> result0.NameOff == off && off < result0.TTLOff - 4 && result0.TTLOff + 6 + result0.RDLen == result0.End && result0.End <= len(body) && 0 <= result0.RDLen && result0.RDLen <= 65535
+//@   ensures result1 ==> result0.Type == be16(body, result0.TTLOff - 4) && result0.Class == be16(body, result0.TTLOff - 2) && result0.RDLen == int(be16(body, result0.TTLOff + 4))
+//@
+//@ # AppendName: decompresses into dst without ever growing past cap(dst), at most 255 octets and 32 pointer jumps
+//@ func AppendName
+//@   arith bv
+//@   ensures region(result0) == region(dst) && offset(result0) == offset(dst) && cap(result0) == cap(dst)
+//@   ensures len(dst) <= len(result0) && len(result0) <= cap(dst) && len(result0) - len(dst) <= 255
+//@   loop 1 invariant 0 <= written && written <= 255 && 0 <= jumps && jumps <= 32
+//@   loop 1 invariant region(dst) == region(entry_dst) && offset(dst) == offset(entry_dst) && cap(dst) == cap(entry_dst)
+//@   loop 1 invariant len(dst) == len(entry_dst) + written && len(dst) <= cap(dst)
+//@
+//@ # the byte-built OPT pseudo-record: root owner, type 41, class = UDP size, TTL = DO<<15, RDLENGTH patched by FinishOPT
+//@ func AppendOPTHeader
+//@   ensures len(result0) == len(dst) + 11 && result1 == len(dst) + 9
+//@   ensures result0[len(dst)] == 0 && be16(result0, len(dst) + 1) == 41 && be16(result0, len(dst) + 3) == udpSize
+//@   ensures result0[len(dst)+5] == 0 && result0[len(dst)+6] == 0 && result0[len(dst)+7] == ite(do, 128, 0) && result0[len(dst)+8] == 0
+//@   ensures result0[len(dst)+9] == 0 && result0[len(dst)+10] == 0
+//@
+//@ func AppendOption
+//@   ensures len(result) == len(dst) + 4 + len(data)
+//@   ensures be16(result, len(dst)) == code && be16(result, len(dst) + 2) == uint16(len(data))
+//@
+//@ func AppendOptionEDE
+//@   ensures len(result) == len(dst) + 6 + len(text)
+//@   ensures be16(result, len(dst)) == 15 && be16(result, len(dst) + 2) == uint16(2 + len(text)) && be16(result, len(dst) + 4) == infoCode
+//@
+//@ func FinishOPT
+//@   arith bv
+//@   requires rdlenOff <= 1000000000
+//@   modifies dst[rdlenOff], dst[rdlenOff+1]
+//@   ensures result == dst
+//@   ensures rdlenOff >= 0 && rdlenOff + 2 <= len(dst) ==> be16(result, rdlenOff) == uint16(len(dst) - rdlenOff - 2)
